@@ -53,6 +53,29 @@ class SE(str, enum.Enum):
     T = "True"
 
 
+class Point(typing.NamedTuple):
+    x: int
+    y: int
+
+
+class Version(typing.NamedTuple):
+    major: int
+    minor: int
+    tag: typing.Optional[str]
+
+
+class TupleSub(tuple):
+    pass
+
+
+class StrSub(str):
+    pass
+
+
+class IntSub(int):
+    pass
+
+
 class TrueLike:
     def __eq__(self, other):
         return other is True or isinstance(other, TrueLike)
@@ -78,6 +101,15 @@ DEFAULTS = {
     "frozenset({IE.ONE})": lambda: frozenset({IE.ONE}), "bytearray-like": lambda: b"\x00",
     "'x'": lambda: "x", "-1": lambda: -1, "2**70": lambda: 2 ** 70, "(nan,)": lambda: (float("nan"),),
     "'quote\"\\'\\n'": lambda: "quote\"'\n{}",
+    # plain literal containers (rendered inline by the code generator) and their look-alikes
+    "(1,)": lambda: (1,), "((1,2),)": lambda: ((1, 2),), "(1,0)": lambda: (1, 0), "(True,False)": lambda: (True, False),
+    "(1.0,0.0)": lambda: (1.0, 0.0), "(0,)": lambda: (0,), "(False,)": lambda: (False,), "(0.0,10)": lambda: (0.0, 10),
+    "(-0.0,10)": lambda: (-0.0, 10), "(None,)": lambda: (None,), "((),)": lambda: ((),), "('a',)": lambda: ("a",),
+    "frozenset({1})": lambda: frozenset({1}), "frozenset({True})": lambda: frozenset({True}), "(1,(2,(3,)))": lambda: (1, (2, (3,))),
+    "Point(0,0)": lambda: Point(0, 0), "Version(1,0,None)": lambda: Version(1, 0, None), "TupleSub((1,2))": lambda: TupleSub((1, 2)),
+    "StrSub('')": lambda: StrSub(""), "IntSub(0)": lambda: IntSub(0), "(IE.ONE,IE.ZERO)": lambda: (IE.ONE, IE.ZERO),
+    "(Decimal1,Decimal0)": lambda: (Decimal("1"), Decimal("0")), "(Fraction1,Fraction0)": lambda: (Fraction(1), Fraction(0)),
+    "slice(None)": lambda: slice(None), "range(3)": lambda: range(3), "bytes_a": lambda: b"a",
 }
 _counter_seq = itertools.count(1000)
 FACTORIES = {
@@ -322,7 +354,7 @@ def check_case(ctx: runner.Ctx, case):  # noqa: C901, PLR0912, PLR0915
         if kind == "attrs":
             datum = {(f["n"].lstrip("_") if False else tspec.model_key(f["n"])): present[f["n"]] for f in fields if f["n"] in present}
     absent = [f for f in fields if f["n"] not in present]
-    lookalike = any(f["d"][0] == "v" and f["d"][1] not in ("'x'", "-1", "2**70") for f in absent) or \
+    lookalike = any(f["d"][0] == "v" and f["d"][1] not in ("'x'", "-1", "2**70", "bytes_a") for f in absent) or \
         any(f["d"][0] in ("f", "fs") for f in absent)
     skipped_then_present = any(fields[i]["n"] not in present and any(g["n"] in present for g in fields[i + 1:])
                                for i in range(len(fields)))
